@@ -246,13 +246,13 @@ func (m *C14Monitor) outcomes(c *Chain, br *BlockResult) {
 			switch x := msg.(type) {
 			case *bridgetypes.MsgClaimDepositsRequest:
 				for _, id := range x.DepositIds {
-					if id <= 12 {
+					if id <= 13 {
 						m.st.Bucket("c14|claim-attempt|deposit=%d|%s", id, reason)
 					}
 				}
 			case *oracletypes.MsgSubmitValue:
 				if isB, toLayer := bridgeQueryKind(x.QueryData); isB && toLayer {
-					for id := uint64(5); id <= 12; id++ {
+					for id := uint64(5); id <= 13; id++ {
 						if string(x.QueryData) == string(BridgeQuery(true, id)) {
 							m.st.Bucket("c14|hostile-deposit-report|deposit=%d|%s", id, reason)
 						}
